@@ -527,6 +527,7 @@ fn adt_drive(_s: &Seed, data: &[u8], p: &mut Probe) {
 pub fn formats() -> Vec<FormatDef> {
     vec![FormatDef {
         name: "adt",
+            family: "adt",
         entries: &["parse_adt", "ParsedAdt accessors"],
         seeds: adt_seeds,
         drive: adt_drive,
